@@ -472,10 +472,13 @@ LEVEL_TEXT = ('Partial. Proved on the tables regenerated from akn_text.xsl and a
               'grammar regenerated from akn.peg and the dict stage: for every non-empty string of scalar values, anywhere on a line of any input, inline+ '
               'reads escape-inlines(s) up to the line end and to_dict turns that run into text nodes only, whose values spell s again - escaped text '
               'cannot become inline markup (C06_escaped_text_parses_as_text); and for every text node in every context, what the unparser model writes for it reads '
-              'back as the text itself, trimmed only where the stylesheet trims (C06_text_node_lossless). The string '
+              'back as the text itself, trimmed only where the stylesheet trims (C06_text_node_lossless), and is read by inline+ and to_dict as text nodes only '
+              '(C06_written_text_parses_as_text); at block level, the line written for a paragraph is dispatched by hier_block_element to rule line - all '
+              'keyword blocks fail on it, by a computed FIRST analysis of the regenerated grammar against the stylesheet\'s list '
+              '(C06_escaped_first_text_is_a_line). The string '
               'templates and all element templates are modelled in Gallina (Model/Unparse.v, Model/UnparseDoc.v) and tied to libxslt running the stylesheet by the xslstr and unp stages. That escaped text re-parses as the same '
               'text is decided by the oracles on the implementation: exhaustive strings of up to 3 atoms of the adversarial alphabet x 22 text positions, '
               'every keyword x 7 block positions x 6 continuations, random poisoning of generated documents, elements without syntax (no text dropped), '
               'attribute values, unparse leaves its argument unmodified and does not raise.')
 LEVEL_NOTE = 'Trusted: Coq kernel (vm_compute table checks); translator of the stylesheet tables; hand model of the string templates tied by sampling; libxslt and element templates exercised, not modelled.'
-TECHNIQUE = 'Rocq proof (escape tables cover the generated grammar; escape-inlines lossless and marker-free for all strings, by a unit-level invariant through the six replace passes; symbolic execution of the PEG interpreter on the generated grammar with a static first-character analysis of inline_marker) + Gallina model of the stylesheet string templates run differentially + exhaustive small-string x position oracle'
+TECHNIQUE = 'Rocq proof (escape tables cover the generated grammar; escape-inlines lossless and marker-free for all strings, by a unit-level invariant through the six replace passes; symbolic execution of the PEG interpreter on the generated grammar with static first-character / FIRST-literal analyses proved sound) + Gallina model of the stylesheet string templates run differentially + exhaustive small-string x position oracle'
